@@ -17,8 +17,12 @@ RECURSIVE FirstFinal(_, _)
 FirstFinal(s, i) == IF i > Len(s) THEN 0 ELSE IF IsFinal(s[i]) THEN i ELSE FirstFinal(s, i+1)
 \* where the body of a control sequence that starts before i stops: at its final byte, or at an ESC - which is neither a
 \* parameter byte nor a final byte and ABORTS the sequence (it is not consumed: a new sequence may start there); 0: at the end
+\* (the same holds for every character that is neither a parameter/intermediate byte 0x20-0x3F nor a final byte: a
+\* newline or other control character, DEL, non-ASCII text)
+IsBodyByte(cp) == cp \in 32..63
 RECURSIVE BodyStop(_, _)
-BodyStop(s, i) == IF i > Len(s) THEN 0 ELSE IF IsFinal(s[i]) \/ s[i] = ESC THEN i ELSE BodyStop(s, i+1)
+BodyStop(s, i) == IF i > Len(s) THEN 0 ELSE IF ~IsBodyByte(s[i]) THEN i ELSE BodyStop(s, i+1)
+Aborts(cp) == ~IsFinal(cp)            \* at a BodyStop position: the sequence is aborted, the character not consumed
 
 ---------------------------------------------------------------------------
 \* Tokens of rendered output: <<"c", <<cp>>>>, <<"sgr", params>>, <<"csi", whole>>, <<"open", rest>>
@@ -28,9 +32,10 @@ TokSgr(s, i) ==
   ELSE IF IsCSIAt(s, i) THEN
     LET j == BodyStop(s, i + 2) IN
     IF j = 0 THEN << <<"open", SubSeq(s, i, Len(s))>> >>
-    ELSE IF s[j] = ESC THEN << <<"csi", SubSeq(s, i, j - 1)>> >> \o TokSgr(s, j)       \* aborted by the ESC
-    \* a parameter string that begins with one of < = > ? is private use: not SGR even when the final byte is m
-    ELSE IF s[j] = LOWM /\ ~(j > i + 2 /\ s[i + 2] \in 60..63)
+    ELSE IF Aborts(s[j]) THEN << <<"csi", SubSeq(s, i, j - 1)>> >> \o TokSgr(s, j)       \* aborted
+    \* SGR = final byte m and nothing but digits, ';' and ':' before it: a private parameter string (< = > ?) or
+    \* intermediate bytes (space, + - ...) make it another, unassigned function
+    ELSE IF s[j] = LOWM /\ (\A k \in (i + 2)..(j - 1) : s[k] \in 48..59)
          THEN << <<"sgr", SubSeq(s, i + 2, j - 1)>> >> \o TokSgr(s, j + 1)
     ELSE << <<"csi", SubSeq(s, i, j)>> >> \o TokSgr(s, j + 1)
   ELSE << <<"c", <<s[i]>> >> >> \o TokSgr(s, i + 1)
@@ -74,8 +79,9 @@ StripSgr(s) == CharsOf(SelectSeq(Tokens(s), LAMBDA t : t[1] # "sgr" \/ ~(\A k \i
 (* <<pos, body, term>>: pos = number of text characters before it,         *)
 (* term = << >> (unterminated) or <<cp>>.                                  *)
 (* Body = the run of bytes up to the final byte or an aborting ESC;        *)
-(* InClaimCS says when that run consists of parameter bytes only (the      *)
-(* alphabet of the property's quantifier has no other kind of byte).       *)
+(* the run consists of parameter and intermediate bytes (0x20-0x3F) by     *)
+(* construction, so InClaimCS holds for every string (it is kept as the    *)
+(* name of the claim; earlier readings of the code made it a real gate).   *)
 (***************************************************************************)
 RECURSIVE Scan(_, _, _, _, _)
 Scan(s, i, allowEmpty, acc, ntext) ==
@@ -83,8 +89,8 @@ Scan(s, i, allowEmpty, acc, ntext) ==
   ELSE IF IsCSIAt(s, i) THEN
     LET j    == BodyStop(s, i + 2)
         body == IF j = 0 THEN SubSeq(s, i + 2, Len(s)) ELSE SubSeq(s, i + 2, j - 1)
-        term == IF j = 0 \/ s[j] = ESC THEN << >> ELSE <<s[j]>>         \* aborted by an ESC = unterminated
-        next == IF j = 0 THEN Len(s) + 1 ELSE IF s[j] = ESC THEN j ELSE j + 1
+        term == IF j = 0 \/ Aborts(s[j]) THEN << >> ELSE <<s[j]>>         \* aborted = unterminated
+        next == IF j = 0 THEN Len(s) + 1 ELSE IF Aborts(s[j]) THEN j ELSE j + 1
         okT  == (term # << >> \/ allowEmpty)
                 /\ (acc = << >> \/ term = << >> \/ \E k \in DOMAIN acc[1] : acc[1][k] = term[1])
     IN IF okT
@@ -105,8 +111,8 @@ InClaimFrom(s, i) ==
   ELSE IF IsCSIAt(s, i) THEN
     LET j == BodyStop(s, i + 2)
         last == IF j = 0 THEN Len(s) ELSE j - 1
-    IN (\A k \in (i + 2)..last : IsParamByte(s[k]))
-       /\ InClaimFrom(s, IF j = 0 THEN Len(s) + 1 ELSE IF s[j] = ESC THEN j ELSE j + 1)
+    IN (\A k \in (i + 2)..last : IsBodyByte(s[k]))       \* (true by construction of BodyStop: every string is inside the claim now)
+       /\ InClaimFrom(s, IF j = 0 THEN Len(s) + 1 ELSE IF Aborts(s[j]) THEN j ELSE j + 1)
   ELSE InClaimFrom(s, i + 1)
 InClaimCS(s) == InClaimFrom(s, 1)
 
